@@ -51,16 +51,16 @@ def is_hash_ty(ty):
 
 
 def run(prog, chk):
-    hash_iteration(prog, chk)
-    debug_of_hash(prog, chk)
-    deny_list(prog, chk)
-    local_style_invariant(prog, chk)
-    rng_discipline(prog, chk)
-    output_order(prog, chk)
-    reviewed_hash_loop_commutes(prog, chk)
+    chk.rule(hash_iteration, prog, chk)
+    chk.rule(debug_of_hash, prog, chk)
+    chk.rule(deny_list, prog, chk)
+    chk.rule(local_style_invariant, prog, chk)
+    chk.rule(rng_discipline, prog, chk)
+    chk.rule(output_order, prog, chk)
+    chk.rule(reviewed_hash_loop_commutes, prog, chk)
     from props import C07
-    C07.static_state(prog, chk)  # "repeating it in the same process": nothing a transform writes outlives it
-    C07.frontend_verdicts(prog, chk)  # "the output bytes, or the error": the front-ends add nothing of their own (e.g. a temp-file name) to an error
+    chk.rule(C07.static_state, prog, chk)  # "repeating it in the same process": nothing a transform writes outlives it
+    chk.rule(C07.frontend_verdicts, prog, chk)  # "the output bytes, or the error": the front-ends add nothing of their own (e.g. a temp-file name) to an error
     # F17 (an empty body becomes HTTP 400) is a difference *between* front-ends (C07), not a source of non-determinism
     chk.obs = [o for o in chk.obs if not (o["rule"] == "A6.frontend-verdict" and o["status"] == "violated" and "server::" in o["key"] and o["key"].endswith(":from"))]
 
@@ -175,7 +175,10 @@ def consumer_of(prog, body, local, from_bb, depth=12):
                 return "insensitive:collect-set", f"collected into {short_ty(dty)}"
             # collected into a Vec: insensitive only if fully sorted before any other use
             if dty.startswith("std::vec::Vec<"):
-                s = sorted_before_use(body, node["dest"][0], b)
+                where = []
+                s = sorted_before_use(body, node["dest"][0], b, where)
+                if s in ("sort_by", "sort_unstable_by", "sort_by_key", "sort_unstable_by_key", "sort_by_cached_key") and where and _comparator_is_map_key(prog, body, where[0], recv_key_ty(body, local)):
+                    return "insensitive:collect-then-sort-by-key", f"collected into a Vec which is sorted by `Ord::cmp` on the container's key type before any other use (keys are distinct, so the order is total)"
                 if s == "sort":
                     return "insensitive:collect-then-sort", "collected into a Vec which is sorted (full-element Ord) before any other use"
                 if s:
@@ -206,6 +209,8 @@ def recv_key_ty(body, iter_local):
     ty = c.self_ty or ""
     i = ty.find("HashMap<")
     if i < 0:
+        i = ty.find("HashSet<")  # a set's elements are its keys
+    if i < 0:
         return None
     rest = ty[i + len("HashMap<"):]
     depth = 0
@@ -213,6 +218,8 @@ def recv_key_ty(body, iter_local):
         if ch in "<(":
             depth += 1
         elif ch in ">)":
+            if depth == 0:
+                return rest[:j].strip()
             depth -= 1
         elif ch == "," and depth == 0:
             return rest[:j].strip()
@@ -267,7 +274,7 @@ def _from_field0(body, op):
     return False
 
 
-def sorted_before_use(body, vec_local, def_bb):
+def sorted_before_use(body, vec_local, def_bb, where=None):
     """is the Vec in `vec_local` sorted (slice::sort / sort_unstable / sort_by*) before any other use? -> kind or None"""
     # the Vec may first be moved into a named `let mut` local
     cur = vec_local
@@ -282,6 +289,8 @@ def sorted_before_use(body, vec_local, def_bb):
         o = R.origin_local(body, t["args"][0])
         if o == cur or _deref_mut_of(body, t["args"][0]) == cur:
             sorts.append((b, c.path.split("::")[-1]))
+            if where is not None and not where:
+                where.append(t)
     if not sorts:
         return None
     sb, kind = sorts[0]
